@@ -95,7 +95,9 @@ def jStep (kind : String) (t : Nat) (r : IState × Option SErr) : Json :=
 
 /-- timer firings interleaved with configuration writes; a firing due at the
     instant of a write runs first -/
-def runMixed : Nat → Cfg → IState → List (Nat × Cfg) → Nat → List Json
+abbrev Step := String × Nat × (IState × Option SErr)
+
+def runMixed : Nat → Cfg → IState → List (Nat × Cfg) → Nat → List Step
   | 0, _, _, _, _ => []
   | fuel + 1, cfg, st, chg, until_ =>
     let fireAt : Option Nat := match st.deadline with
@@ -107,21 +109,33 @@ def runMixed : Nat → Cfg → IState → List (Nat × Cfg) → Nat → List Jso
       | some w =>
         if w ≤ tc then
           let r := fire cfg st w
-          jStep "fire" w r :: runMixed fuel cfg r.1 chg until_
+          ("fire", w, r) :: runMixed fuel cfg r.1 chg until_
         else
           let r := scheduleChanged cfg' st tc
-          jStep "chg" tc r :: runMixed fuel cfg' r.1 more until_
+          ("chg", tc, r) :: runMixed fuel cfg' r.1 more until_
       | none =>
         if tc ≤ until_ then
           let r := scheduleChanged cfg' st tc
-          jStep "chg" tc r :: runMixed fuel cfg' r.1 more until_
+          ("chg", tc, r) :: runMixed fuel cfg' r.1 more until_
         else []
     | [] =>
       match fireAt with
       | some w =>
         let r := fire cfg st w
-        jStep "fire" w r :: runMixed fuel cfg r.1 [] until_
+        ("fire", w, r) :: runMixed fuel cfg r.1 [] until_
       | none => []
+
+def runSteps (j : Json) : R (List Step) := do
+  let cfg ← cfgOfJson (← fld j "cfg")
+  let start ← fldNat j "start"
+  let until_ ← fldNat j "until"
+  let pv0 ← fldNat j "pv0"
+  let chg ← (← fldArr j "changes").toList.mapM fun c => do
+    let a ← c.getArr?
+    if a.size ≠ 2 then throw "change: need [t, cfg]"
+    pure ((← a[0]!.getNat?), (← cfgOfJson a[1]!))
+  let r0 := processTask cfg { pv := pv0, deadline := none } start
+  pure (("init", start, r0) :: runMixed (← fldNat j "fuel") cfg r0.1 chg until_)
 
 def handle (j : Json) : R Json := do
   match ← fldStr j "op" with
@@ -168,17 +182,15 @@ def handle (j : Json) : R Json := do
       let ts ← (← fldArr j "times").toList.mapM timeOfJson
       pure (jOk [("res", Json.arr (ts.map fun t => jEval (evalSchedule cfg d t)).toArray)])
   | "run" =>     -- created at `start` (deferred process_task), then timer/writes until `until`
-      let cfg ← cfgOfJson (← fld j "cfg")
-      let start ← fldNat j "start"
-      let until_ ← fldNat j "until"
+      let steps ← runSteps j
+      pure (jOk [("steps", Json.arr (steps.map fun (k, t, r) => jStep k t r).toArray)])
+  | "pvat" =>    -- the same run, reported as the present value at the given (ascending) instants
+      let steps ← runSteps j
+      let probes ← natList (← fld j "probes")
       let pv0 ← fldNat j "pv0"
-      let chg ← (← fldArr j "changes").toList.mapM fun c => do
-        let a ← c.getArr?
-        if a.size ≠ 2 then throw "change: need [t, cfg]"
-        pure ((← a[0]!.getNat?), (← cfgOfJson a[1]!))
-      let r0 := processTask cfg { pv := pv0, deadline := none } start
-      pure (jOk [("steps", Json.arr
-        (jStep "init" start r0 :: runMixed (← fldNat j "fuel") cfg r0.1 chg until_).toArray)])
+      let pvAt (x : Nat) : Nat :=
+        steps.foldl (fun acc (_, t, r) => if t ≤ x then r.1.pv else acc) pv0
+      pure (jOk [("pv", Json.arr (probes.map fun x => Json.num (pvAt x)).toArray)])
   | op => throw s!"unknown op {op}"
 
 def main : IO Unit := loop handle
